@@ -858,12 +858,52 @@ class _Missing(object):
         return f
 
 
+MODEXP_MODEL = [False]
+
+
+class ModexpLib(object):
+    """contract of src/modexp.c: every operand buffer holds exactly `len` big-endian bytes (the C reads `len` bytes of
+    each and ignores / overruns anything else), the modulus is odd; result = the exact power / product (through
+    natives.sym_pow, i.e. the reduced-width exact shim when operands are symbolic)"""
+
+    def _operands(self, bufs, n):
+        vals = []
+        for nm, b in bufs:
+            e = to_elems(b)
+            if len(e) != n:
+                raise ContractBreach("monty: the %s buffer has %d bytes but len = %d was passed (the C reads exactly len bytes)" % (nm, len(e), n))
+            vals.append(core.int_from_bytes(e, 'big'))
+        return vals
+
+    def monty_pow(self, out, base, exp, modulus, n, seed):
+        n = operator.index(n)
+        b, e, m = self._operands((('base', base), ('exponent', exp), ('modulus', modulus)), n)
+        odd = (m & 1) == 1
+        if not odd:
+            return 17
+        r = sym_pow(b, e, m)
+        wr(out, list(r.to_bytes(n, 'big')) if isinstance(r, int) else r.to_bytes(n, 'big').b)
+        return 0
+
+    def monty_multiply(self, out, t1, t2, modulus, n):
+        n = operator.index(n)
+        a, b, m = self._operands((('term1', t1), ('term2', t2), ('modulus', modulus)), n)
+        odd = (m & 1) == 1
+        if not odd:
+            return 17
+        r = (a * b) % m
+        wr(out, list(r.to_bytes(n, 'big')) if isinstance(r, int) else r.to_bytes(n, 'big').b)
+        return 0
+
+
 _lib_cache = {}
 
 
 def load_pycryptodome_raw_lib(name, cdecl):
     lib_loads.append(name)
     if name == "Crypto.Math._modexp":
+        if MODEXP_MODEL[0]:
+            return ModexpLib()      # C14 custom_glue: contract model of monty_pow / monty_multiply (harness-local)
         # force the pure-Python integer back-end (IntegerNative operates on SymInt); see C14/C16
         raise OSError("PYSYM: custom-C integer back-end disabled")
     if name in _lib_cache:
